@@ -70,16 +70,24 @@ def otherFields : List String := ["co", "po", "prog", "ct", "fp", "pc", "fio", "
 def machinePart (probe : String) : String := (splitOnStr probe " side ").headD ""
 def sidePart (probe : String) : String := ((splitOnStr probe " side ").drop 1).headD ""
 
+/-- the value every catch yields.  `caught M` is what the master's error_handler logged for an error that a catch is about
+    to receive (`pending`): the catch statement that prints next MUST show exactly `M` — not 0, not 1, not the value of
+    some catch the handler executed itself — or the injected fault when that hit the handler after it had logged.
+    A catch that prints without a pending error shows 0, a value thrown by the program, or the injected fault (the
+    handler was hit before it logged).  An error reported as uncaught (`err …`) ends the pending state. -/
 def checkCatches (thrown : List String) (segs : List String) : List String :=
-  let rec go (last : Option String) : List String → List String
+  let rec go (pending : Option String) : List String → List String
     | [] => []
     | s :: rest =>
       if s.startsWith "caught " then go (some (s.drop 7).toString) rest
+      else if s.startsWith "err " then go none rest
       else if s.startsWith "catch " then
         let v := (s.drop 6).toString
-        let ok := v == "0" || v == injected || some v == last || thrown.contains v
-        (if ok then [] else [s!"catch-value got '{v}' after error '{last.getD "-"}'"]) ++ go last rest
-      else go last rest
+        let ok := match pending with
+          | some m => v == m || v == injected
+          | none => v == "0" || v == injected || thrown.contains v
+        (if ok then [] else [s!"catch-value got '{v}' after error '{pending.getD "-"}'"]) ++ go none rest
+      else go pending rest
   go none segs
 
 structure JSt where
